@@ -515,6 +515,8 @@ class Folder:
             return self.ev(t[2])
         if k == 'field' and t[1][0] == 'downcast' and t[1][1][0] == 'tryconv' and t[2] == '0':
             return self.ev(t[1][1][2])
+        if k == 'discr' and t[1][0] == 'agg' and t[1][1] in VARIANT_DISCR:
+            return VARIANT_DISCR[t[1][1]]
         if k == 'discr' and t[1][0] == 'okor':
             return 1 - self.ev(simplify(('discr', t[1][1])))
         if k == 'discr' and t[1][0] == 'call' and NUM_FN.match(t[1][2]) and NUM_FN.match(t[1][2]).group(2) in ('checked_sub', 'checked_add', 'checked_mul'):
